@@ -649,6 +649,44 @@ pub fn check_decorated_source(case: &Case, tree: &Node, src: Option<&str>, cx: &
     })
 }
 
+/// Prefixes and bodies of small texts at the edge of what the tokenizer takes for a literal
+/// (signs Rust's own number parsers would accept, the extremes of the integer range, hexadecimal
+/// forms, exponents, separators). No text contains an assignment sign.
+pub const LEXEME_PREFIXES: [&str; 8] = ["", "-", "+", "--", "- ", "!", " ", "-+"];
+pub const LEXEME_BODIES: [&str; 30] = [
+    "5", "9223372036854775807", "9223372036854775808", "18446744073709551615", "0x10", "0x-5", "0x+5", "0x",
+    "0x8000000000000000", "0x7fffffffffffffff", "0xffffffffffffffff", "0X10", "1.5", "1e3", "1e", "1e+3", "5.", ".5",
+    "1_0", "007", "true", "a", "zz", "\"s\"", "()", "inf", "NaN", "1.0e400", "5 5", "",
+];
+
+/// C11, fault-free, string entries only, reference-free: a small literal-like text (chosen by the
+/// case's own source text, no PRNG) evaluated read-only and mutably on fresh contexts of the
+/// case's setup, through the case's typed entry; the two outcomes must agree (there is no
+/// assignment in any of these texts), whatever the tokenizer makes of the text.
+pub fn check_lexeme_twin(case: &Case, tree: &Node, src: Option<&str>, cx: &mut Ctx) -> Option<Finding> {
+    let src = src?;
+    let h = src.bytes().fold(7usize, |a, b| a.wrapping_mul(131).wrapping_add(b as usize));
+    for k in 0..2 {
+        let h = h.wrapping_add(k * 7919);
+        let text = format!(
+            "{}{}{}",
+            LEXEME_PREFIXES[h % LEXEME_PREFIXES.len()],
+            LEXEME_BODIES[(h / 8) % LEXEME_BODIES.len()],
+            if (h / 256) % 4 == 0 { " " } else { "" }
+        );
+        let o_imm = run_real(tree, Some(&text), &case.setup, case.kind, Path::Imm, Entry::Str, case.typed, &[]);
+        let o_mut = run_real(tree, Some(&text), &case.setup, case.kind, Path::Mut, Entry::Str, case.typed, &[]);
+        cx.stats.add("evaluations_real", 2);
+        cx.stats.inc("c11.lexeme_twin_checked");
+        if let Some(class) = diff_class(&o_mut, &o_imm, false) {
+            let mut f = finding(Prop::C11, class, "string-entries-disagree-on-literal-like-text", &[], &o_mut, &o_imm);
+            f.actual = format!("[text `{}`] {}", text, f.actual);
+            return Some(f);
+        }
+    }
+    None
+}
+
 /// Which seam calls of a fault-free history can be failed for this context kind.
 pub fn fault_positions(log: &[Ev]) -> Vec<usize> {
     (0..log.len()).collect()
@@ -703,6 +741,9 @@ pub fn check_case(
             return Some(f);
         }
         if let Some(f) = check_decorated_source(case, &tree, src_ref, cx) {
+            return Some(f);
+        }
+        if let Some(f) = check_lexeme_twin(case, &tree, src_ref, cx) {
             return Some(f);
         }
     }
